@@ -76,7 +76,9 @@ def indx_cases(draw, max_entries=40, max_rowids=50):
         rowids[k] = list(range(start, start + step * n, step))
     return {"common": common, "arity": arity,
             "entries": [[list(c), r] for c, r in zip(coords, rowids)],
-            "layout": draw(st.sampled_from(["plain", "plain", "plain", "strided", "readonly", "reversed_keys"]))}
+            "layout": draw(st.sampled_from(["plain", "plain", "plain", "strided", "readonly", "reversed_keys"])),
+            # coordinates as integer-valued Python floats (an index built from a float array): same file expected
+            "keys": draw(st.sampled_from(["int", "int", "int", "int", "float"]))}
 
 
 def case_entries(case):
@@ -95,6 +97,8 @@ def case_entries(case):
         elif layout == "readonly":
             a.setflags(write=False)
         out[tuple(c)] = a
+    if case.get("keys") == "float" and all(x < 2 ** 53 for k in out for x in k):
+        out = {tuple(float(x) for x in k): v for k, v in out.items()}
     if layout == "reversed_keys":
         out = dict(reversed(list(out.items())))
     return out
